@@ -65,7 +65,21 @@ class C15(F.PropCheck):
             'independent-image cases for the model comparison only; x 7 page variants x data_saved x 0-4 state messages x device name/MAC x '
             'additional settings; non-trivial = at least one page rendered; distinct by sha256 of the event text')
 
+    def regen_guard(self):
+        """another check may regenerate ALL translator groups from /repo between our translator run and our Coq build
+        (shared gen.py: an empty group list means every group).  Re-run our groups; when a generated .v is newer than its
+        .vo the proofs were checked against other constants: check them again."""
+        F.run_gen(self.gen_groups)
+        coq = os.path.join(F.VERIF, 'coq', 'Gen')
+        stale = [g for g in self.gen_groups
+                 if not os.path.exists(os.path.join(coq, g + '.vo')) or os.path.getmtime(os.path.join(coq, g + '.v')) > os.path.getmtime(os.path.join(coq, g + '.vo'))]
+        if stale:
+            cq = F.coq_build(self.prop_file)
+            if not cq['ok']: return 'proofs do not hold for the constants regenerated from the tree under test (%s): %s' % (', '.join(stale), '; '.join(cq.get('errors', [])[:2]) or cq['log'][-400:])
+        return None
+
     def build_impl(self):
+        self._guard_problem = self.regen_guard()      # reported in extra_quick; the implementation is run in any case
         srcs = [s for s in F.device_sources('mqtt') if not s.endswith('supla_esp_cfgmode_mqtt_html.c')]
         H = os.path.join(F.VERIF, 'harness')
         return F.build_c('c15', os.path.join(H, 'drv', 'c15.c'), config='mqtt', sources=srcs,
@@ -298,5 +312,8 @@ class C15(F.PropCheck):
     def nontrivial(self, case, io): return any(o[0] in ('PAGE', 'GETPAGE', 'FPAGE') for o in io[1])
     def sample(self, case, io):
         return dict(id=case.id, events=[F.fmt_line(*e)[:100] for e in case.evs[:10]], outputs=[F.fmt_line(*o)[:140] for o in io[1][:4]])
+
+    def extra_quick(self, ctx):
+        if getattr(self, '_guard_problem', None): ctx['problems'].append('proof: ' + self._guard_problem)
 
 CHECK = C15()
